@@ -335,4 +335,136 @@ theorem gen_nodeId_numeric_valid (ns k : Nat) :
 theorem gen_xmlEncode_total (n : NodeId) (b : Bool) : ∃ t, Gen.nodeid_xml_encode n b = .ok t ∧ t = encodeText (.nodeId n) b :=
   ⟨_, xmlEncode_eq n b, rfl⟩
 
+/-! ### `UAQualifiedName.xml_encode`, `UAQualifiedName.json_encode`: generated = hand model -/
+
+theorem tQName_eq : "QualifiedName".toList = ['Q', 'u', 'a', 'l', 'i', 'f', 'i', 'e', 'd', 'N', 'a', 'm', 'e'] := by decide
+theorem tNsIndex_eq : "NamespaceIndex".toList = ['N', 'a', 'm', 'e', 's', 'p', 'a', 'c', 'e', 'I', 'n', 'd', 'e', 'x'] := by decide
+theorem tName_eq : "Name".toList = ['N', 'a', 'm', 'e'] := by decide
+theorem qnameKey_eq : "{\"Name\":\"".toList = ['{', '"', 'N', 'a', 'm', 'e', '"', ':', '"'] := by decide
+theorem uriKey_eq : ",\"Uri\":".toList = [',', '"', 'U', 'r', 'i', '"', ':'] := by decide
+
+theorem qnameXml_eq (q : QName) (b : Bool) : Gen.qname_xml_encode q b = .ok (encodeText (.qname q.ns q.name) b) := by
+  have he : encodeText (.qname q.ns q.name) b = wrap "QualifiedName".toList b
+      (wrap "NamespaceIndex".toList false (showNat q.ns) ++ wrap "Name".toList false q.name) := by simp only [encodeText]
+  rw [he]
+  unfold Gen.qname_xml_encode wrap
+  rw [tQName_eq, tNsIndex_eq, tName_eq, xmlns_false]
+  cases b
+  · rw [xmlns_false]; simp [bindE, pyFormat, PyFormat.fmt]
+  · rw [xmlns_eq]; simp [bindE, pyFormat, PyFormat.fmt]
+
+theorem qnameJson_eq (fs : Int → Str) (q : QName) :
+    (Gen.qname_json_encode q).map some = jsonEncode fs (.qname q.ns q.name) := by
+  rw [jsonEncode]
+  unfold Gen.qname_json_encode
+  rw [qnameKey_eq, uriKey_eq]
+  by_cases h0 : q.ns = 0
+  · simp [bindE, h0, Except.map]
+  · have h1 : ¬ ((q.ns : Int) = 0) := by omega
+    simp [bindE, h0, h1, Except.map, pyFormat, PyFormat.fmt]
+
+/-! ### `xml_encode` of the eight integer built-ins and of `UABoolean`: generated = hand model -/
+
+theorem tag_sbyte : IntKind.tag .sbyte = ['S', 'B', 'y', 't', 'e'] := by decide
+theorem tag_byte : IntKind.tag .byte = ['B', 'y', 't', 'e'] := by decide
+theorem tag_int16 : IntKind.tag .int16 = ['I', 'n', 't', '1', '6'] := by decide
+theorem tag_uint16 : IntKind.tag .uint16 = ['U', 'I', 'n', 't', '1', '6'] := by decide
+theorem tag_int32 : IntKind.tag .int32 = ['I', 'n', 't', '3', '2'] := by decide
+theorem tag_uint32 : IntKind.tag .uint32 = ['U', 'I', 'n', 't', '3', '2'] := by decide
+theorem tag_int64 : IntKind.tag .int64 = ['I', 'n', 't', '6', '4'] := by decide
+theorem tag_uint64 : IntKind.tag .uint64 = ['U', 'I', 'n', 't', '6', '4'] := by decide
+theorem tBoolean_eq : tBoolean = ['B', 'o', 'o', 'l', 'e', 'a', 'n'] := by decide
+theorem true_eq : "true".toList = ['t', 'r', 'u', 'e'] := by decide
+theorem false_eq : "false".toList = ['f', 'a', 'l', 's', 'e'] := by decide
+
+theorem intXml_sbyte (v : Option Int) (b : Bool) : Gen.int_xml_encode_sbyte ⟨v⟩ b = .ok (encodeText (.int .sbyte v) b) := by
+  have he : encodeText (.int .sbyte v) b = wrap (IntKind.tag .sbyte) b (intText v) := by simp only [encodeText]
+  rw [he]
+  unfold Gen.int_xml_encode_sbyte wrap
+  rw [tag_sbyte]
+  cases b <;> cases v <;> first | rw [xmlns_false] | rw [xmlns_eq]
+  all_goals simp [bindE, intText, pyFormat, PyFormat.fmt]
+
+theorem intXml_byte (v : Option Int) (b : Bool) : Gen.int_xml_encode_byte ⟨v⟩ b = .ok (encodeText (.int .byte v) b) := by
+  have he : encodeText (.int .byte v) b = wrap (IntKind.tag .byte) b (intText v) := by simp only [encodeText]
+  rw [he]
+  unfold Gen.int_xml_encode_byte wrap
+  rw [tag_byte]
+  cases b <;> cases v <;> first | rw [xmlns_false] | rw [xmlns_eq]
+  all_goals simp [bindE, intText, pyFormat, PyFormat.fmt]
+
+theorem intXml_int16 (v : Option Int) (b : Bool) : Gen.int_xml_encode_int16 ⟨v⟩ b = .ok (encodeText (.int .int16 v) b) := by
+  have he : encodeText (.int .int16 v) b = wrap (IntKind.tag .int16) b (intText v) := by simp only [encodeText]
+  rw [he]
+  unfold Gen.int_xml_encode_int16 wrap
+  rw [tag_int16]
+  cases b <;> cases v <;> first | rw [xmlns_false] | rw [xmlns_eq]
+  all_goals simp [bindE, intText, pyFormat, PyFormat.fmt]
+
+theorem intXml_uint16 (v : Option Int) (b : Bool) : Gen.int_xml_encode_uint16 ⟨v⟩ b = .ok (encodeText (.int .uint16 v) b) := by
+  have he : encodeText (.int .uint16 v) b = wrap (IntKind.tag .uint16) b (intText v) := by simp only [encodeText]
+  rw [he]
+  unfold Gen.int_xml_encode_uint16 wrap
+  rw [tag_uint16]
+  cases b <;> cases v <;> first | rw [xmlns_false] | rw [xmlns_eq]
+  all_goals simp [bindE, intText, pyFormat, PyFormat.fmt]
+
+theorem intXml_int32 (v : Option Int) (b : Bool) : Gen.int_xml_encode_int32 ⟨v⟩ b = .ok (encodeText (.int .int32 v) b) := by
+  have he : encodeText (.int .int32 v) b = wrap (IntKind.tag .int32) b (intText v) := by simp only [encodeText]
+  rw [he]
+  unfold Gen.int_xml_encode_int32 wrap
+  rw [tag_int32]
+  cases b <;> cases v <;> first | rw [xmlns_false] | rw [xmlns_eq]
+  all_goals simp [bindE, intText, pyFormat, PyFormat.fmt]
+
+theorem intXml_uint32 (v : Option Int) (b : Bool) : Gen.int_xml_encode_uint32 ⟨v⟩ b = .ok (encodeText (.int .uint32 v) b) := by
+  have he : encodeText (.int .uint32 v) b = wrap (IntKind.tag .uint32) b (intText v) := by simp only [encodeText]
+  rw [he]
+  unfold Gen.int_xml_encode_uint32 wrap
+  rw [tag_uint32]
+  cases b <;> cases v <;> first | rw [xmlns_false] | rw [xmlns_eq]
+  all_goals simp [bindE, intText, pyFormat, PyFormat.fmt]
+
+theorem intXml_int64 (v : Option Int) (b : Bool) : Gen.int_xml_encode_int64 ⟨v⟩ b = .ok (encodeText (.int .int64 v) b) := by
+  have he : encodeText (.int .int64 v) b = wrap (IntKind.tag .int64) b (intText v) := by simp only [encodeText]
+  rw [he]
+  unfold Gen.int_xml_encode_int64 wrap
+  rw [tag_int64]
+  cases b <;> cases v <;> first | rw [xmlns_false] | rw [xmlns_eq]
+  all_goals simp [bindE, intText, pyFormat, PyFormat.fmt]
+
+theorem intXml_uint64 (v : Option Int) (b : Bool) : Gen.int_xml_encode_uint64 ⟨v⟩ b = .ok (encodeText (.int .uint64 v) b) := by
+  have he : encodeText (.int .uint64 v) b = wrap (IntKind.tag .uint64) b (intText v) := by simp only [encodeText]
+  rw [he]
+  unfold Gen.int_xml_encode_uint64 wrap
+  rw [tag_uint64]
+  cases b <;> cases v <;> first | rw [xmlns_false] | rw [xmlns_eq]
+  all_goals simp [bindE, intText, pyFormat, PyFormat.fmt]
+
+theorem boolXml_eq (v : Option Bool) (b : Bool) : Gen.bool_xml_encode ⟨v⟩ b = .ok (encodeText (.bool v) b) := by
+  have he : encodeText (.bool v) b = wrap tBoolean b (boolText v) := by simp only [encodeText]
+  rw [he]
+  unfold Gen.bool_xml_encode wrap
+  rw [tBoolean_eq]
+  cases b <;> (first | rw [xmlns_false] | rw [xmlns_eq]) <;> (rcases v with _ | _ | _) <;>
+    simp [bindE, boolText, true_eq, false_eq]
+
+/-- every integer encoder, as the source reads now, is total and emits the model's text (C08's `encodeText`) -/
+theorem gen_intXml_all (k : IntKind) (v : Option Int) (b : Bool) :
+    ∃ t, (match k with
+      | .sbyte => Gen.int_xml_encode_sbyte ⟨v⟩ b | .byte => Gen.int_xml_encode_byte ⟨v⟩ b
+      | .int16 => Gen.int_xml_encode_int16 ⟨v⟩ b | .uint16 => Gen.int_xml_encode_uint16 ⟨v⟩ b
+      | .int32 => Gen.int_xml_encode_int32 ⟨v⟩ b | .uint32 => Gen.int_xml_encode_uint32 ⟨v⟩ b
+      | .int64 => Gen.int_xml_encode_int64 ⟨v⟩ b | .uint64 => Gen.int_xml_encode_uint64 ⟨v⟩ b) = .ok t ∧
+      t = encodeText (.int k v) b := by
+  cases k
+  · exact ⟨_, intXml_sbyte v b, rfl⟩
+  · exact ⟨_, intXml_byte v b, rfl⟩
+  · exact ⟨_, intXml_int16 v b, rfl⟩
+  · exact ⟨_, intXml_uint16 v b, rfl⟩
+  · exact ⟨_, intXml_int32 v b, rfl⟩
+  · exact ⟨_, intXml_uint32 v b, rfl⟩
+  · exact ⟨_, intXml_int64 v b, rfl⟩
+  · exact ⟨_, intXml_uint64 v b, rfl⟩
+
 end Opcua.Tie
